@@ -22,6 +22,7 @@ use allsorts::tables::kern::KernTable;
 use allsorts::tables::loca::LocaTable;
 use allsorts::tables::os2::Os2;
 use allsorts::tables::svg::SvgTable;
+use allsorts::tables::variable_fonts::avar::AvarTable;
 use allsorts::tables::variable_fonts::fvar::FvarTable;
 use allsorts::tables::{F2Dot14, Fixed, FontTableProvider, HeadTable, HheaTable, HmtxTable, MaxpTable, NameTable, SfntVersion};
 use allsorts::unicode::VariationSelector;
@@ -611,8 +612,24 @@ fn instance(out: &mut GroupOut, p: &(impl FontTableProvider + SfntVersion)) {
         axes.iter().map(|a| Fixed::from_raw((a.1.raw_value() >> 1).wrapping_add(a.2.raw_value() >> 1))).collect(),
         axes.iter().enumerate().map(|(k, a)| if k % 2 == 0 { Fixed::from_raw((a.1.raw_value() >> 1).wrapping_add(a.0.raw_value() >> 1)) } else { a.2 }).collect(),
     ];
+    // half way between minimum and default on every axis (a default-normalised coordinate strictly inside (-1, 0))
+    users.push(axes.iter().map(|a| Fixed::from_raw((a.1.raw_value() >> 1).wrapping_add(a.0.raw_value() >> 1))).collect());
     users.push(Vec::new());
     users.push(vec![Fixed::from(400i32)]);
+    // the normalisation of every user tuple on its own (fvar default normalisation, then the avar segment maps):
+    // reached even when instancing gives up earlier for another table
+    for u in &users {
+        sub(out, || {
+            let fd = p.read_table_data(tag::FVAR)?;
+            let fvar = ReadScope::new(&fd).read::<FvarTable<'_>>()?;
+            let ad = p.table_data(tag::AVAR)?;
+            let avar = match &ad {
+                Some(d) => Some(ReadScope::new(d).read::<AvarTable<'_>>()?),
+                None => None,
+            };
+            fvar.normalize(u.iter().copied(), avar.as_ref()).map(|t| t.len())
+        });
+    }
     for u in users {
         sub(out, || variations::instance(p, &u).map(|(v, _)| v.len()));
     }
